@@ -272,9 +272,25 @@ def run_object(case, all_sync):
 FIELDS = ('out', 'before', 'after', 'match', 'buffer', 'match_index')
 
 
+def near_tie(case, rec, op):
+    """an arrival within 2 ms of this call's deadline: which side of the deadline it falls on is decided by the few ticks the
+    two implementations spend differently, not by the property"""
+    if op['T'] is None:
+        return False
+    deadline = rec['t0'] + op['T']
+    t = 1000.0
+    for a in case['arrivals']:
+        t += a[0]
+        if abs(t - deadline) < 2e-3:
+            return True
+    return False
+
+
 def compare_twin(case, a, b):
     """first difference between the object under test and the all-blocking twin, up to and including the first EOF"""
     for n, (ra, rb) in enumerate(zip(a['recs'], b['recs'])):
+        if near_tie(case, ra, case['ops'][n]) or near_tie(case, rb, case['ops'][n]):
+            return None
         # done_window_data_conserved / Inv: after a TIMEOUT `before` is all pending text and the search buffer is a suffix of it
         if (ra['out'] == 'TIMEOUT' or ra['after'] == 'TIMEOUT') and ra['before'] is not None and ra['buffer'] is not None \
                 and not ra['before'].endswith(ra['buffer']):
@@ -373,7 +389,7 @@ def rand_case(rng, allow_t0=False):
             else:
                 s = ''.join(rng.choice(alph) for _ in range(rng.choice([1, 2, 2])))
                 pats.append(['re', 's', X.lit(s)]); plants.append(s)
-        tmo = rng.choice([0.35, 0.55, 0.55, 1.05, 2.05])
+        tmo = rng.choice([0.337, 0.571, 0.571, 1.043, 2.069])
         if allow_t0 and rng.random() < 0.15:
             tmo = 0
         ops.append(dict(mode=rng.choice('aaas'), k=k, pats=pats, T=tmo, gap=rng.choice([0, 0, 0, 0.2, 0.5, 1.0])))
